@@ -14,8 +14,8 @@ a == << 97 >>   b == << 98 >>   c == << 99 >>   d == << 100 >>   x == << 120 >>
 pa == << 112, 97 >>   pb == << 112, 98 >>   pc == << 112, 99 >>   zz == << 122, 122 >>
 
 NoA == [k |-> "none", pw |-> <<>>]
-Grp(n, au) == [name |-> n, auth |-> au, acct |-> FALSE, commands |-> <<>>, services |-> <<>>]
-Usr(n, au, ac, gs) == [name |-> n, scopes |-> << "s1" >>, auth |-> au, acct |-> ac, groups |-> gs, commands |-> <<>>, services |-> <<>>]
+Grp(n, au) == [name |-> n, auth |-> au, acct |-> FALSE, acctk |-> "file", commands |-> <<>>, services |-> <<>>]
+Usr(n, au, ac, gs) == [name |-> n, scopes |-> << "s1" >>, auth |-> au, acct |-> ac, acctk |-> "file", groups |-> gs, commands |-> <<>>, services |-> <<>>]
 Cfg == [secrets |-> << [name |-> "s1", nameb |-> << 115, 49 >>, key |-> << 107 >>, prefixes |-> << [s |-> "10.0.0.0/8", ip |-> << 10, 0, 0, 0 >>, bits |-> 8] >>, nohandler |-> FALSE] >>,
         users |-> << Usr(a, [k |-> "bcrypt", pw |-> pa], TRUE, <<>>),
                      Usr(b, NoA, FALSE, << Grp(<< 48 >>, NoA), Grp(<< 49 >>, [k |-> "bcrypt", pw |-> pb]), Grp(<< 50 >>, [k |-> "bcrypt", pw |-> pc]) >>),
